@@ -273,6 +273,9 @@ func VerifC12Append(n, alpha int, tmpl string, on, off, sym, indent int, overlap
 	vrt.Assert("C12/append/same-as-format", ferr == nil && bytes.Equal(got, append(bytes.Clone(pre), v...)))
 	if !overlap {
 		vrt.Assert("C12/append/src-untouched", bytes.Equal(src, b))
+		// the string instantiation of the generic function
+		got2, err2 := AppendFormat(append(make([]byte, 0, 2), "x:"...), string(b), opts...)
+		vrt.Assert("C12/append/string-src-same", err2 == nil && bytes.Equal(got2, got))
 	}
 }
 
